@@ -58,7 +58,7 @@ static Plan gen_c14(uint64_t seed, int64_t index, bool thorough)
         key = rng.pick(dk);
         op = make_sentence_op(rng, key, sh);
         int target = thorough ? int(rng.pick(std::vector<int>{ 1024, 1024, 2048, 4096, 65536 })) : int(rng.pick(std::vector<int>{ 1024, 1024, 1024, 2048 }));
-        if (rng.chance(1, thorough ? 12 : 40)) target = 65536;      // indices beyond 16 bits
+        if (rng.chance(1, 10)) target = 65536 + 24;      // indices beyond 16 bits
         if (!make_deep_op(op, rng, key, target)) mode = "fault_free";
     }
     else
@@ -183,18 +183,19 @@ struct Obs
 {
     bool has_value; uint64_t digest; int exc;
     std::vector<std::pair<int, uint64_t>> reds;
+    std::vector<int> red_ctx;            // how each contextual functor received its context (value category)
     std::vector<std::pair<int, int64_t>> termfs;
     uint64_t ctx_acc; int ctx_touches;
     bool operator==(const Obs& o) const
     {
-        return has_value == o.has_value && digest == o.digest && exc == o.exc && reds == o.reds && termfs == o.termfs && ctx_acc == o.ctx_acc && ctx_touches == o.ctx_touches;
+        return has_value == o.has_value && digest == o.digest && exc == o.exc && reds == o.reds && red_ctx == o.red_ctx && termfs == o.termfs && ctx_acc == o.ctx_acc && ctx_touches == o.ctx_touches;
     }
 };
 static Obs observe(const OpResult& o)
 {
     Obs b;
     b.has_value = o.out.has_value; b.digest = o.out.digest; b.exc = o.out.exc;
-    for (const auto& r : o.rec.reds) b.reds.emplace_back(r.rule, r.digest);
+    for (const auto& r : o.rec.reds) { b.reds.emplace_back(r.rule, r.digest); b.red_ctx.push_back(r.ctx); }
     for (const auto& t : o.rec.termfs) b.termfs.emplace_back(t.term, t.off);
     b.ctx_acc = o.out.ctx_acc; b.ctx_touches = o.out.ctx_touches;
     return b;
@@ -205,6 +206,7 @@ static std::string obs_diff(const Obs& a, const Obs& b)
     if (a.exc != b.exc) return "exception state differs";
     if (a.digest != b.digest) return "result value differs";
     if (a.reds != b.reds) return "sequence of functor calls differs (" + std::to_string(a.reds.size()) + " vs " + std::to_string(b.reds.size()) + ")";
+    if (a.red_ctx != b.red_ctx) return "a contextual functor received its context with a different value category (lvalue vs rvalue)";
     if (a.termfs != b.termfs) return "sequence of term-functor calls differs";
     return "context effects differ";
 }
